@@ -1655,6 +1655,8 @@ def run(ctx):
         if dis_mem:
             ctx.tie_broken("pydescr", dis_mem[:6])
     ctx.note("members_without_descriptor_statements", c03_ext.unsupported_members(ctx))
+    ctx.note("list_element_type_calls (compiled c++ and c: every element type of the list converters, good lists and a wrongly typed item "
+             "at every index)", c03_ext.elems_run(ctx, thorough))
     for s_ in (dis_imp + dis_mem)[:3]:
         ctx.sample(s_)
     for li, lib in enumerate(libs):
